@@ -368,13 +368,6 @@ Proof.
     split; [apply lv_get_set|]. split; [exact I|reflexivity].
 Qed.
 
-Lemma truncate_extra (extra k : list value) : truncate_to (extra ++ k) (zlength k) = k.
-Proof.
-  induction extra as [|v e IH]; cbn [app]; [apply CallFrames.truncate_own|].
-  cbn [truncate_to]. assert (H : (zlength (v :: e ++ k) <=? zlength k) = false).
-  { apply Z.leb_gt. unfold zlength. cbn [length]. rewrite app_length. lia. }
-  rewrite H. exact IH.
-Qed.
 
 (* END_LOOP with names still on the stack (after a break): they go with the loop frame *)
 Lemma end_loop_step_extra im ss s0 s lv r extra :
